@@ -450,4 +450,4 @@ def main(run: common.Run):
 
 
 if __name__ == "__main__":
-    common.guarded_main("C14", "proof", main)
+    common.guarded_main("C14", "proof", main, generic_replay=True)
